@@ -161,9 +161,9 @@ Definition child_calls (f : flags) : list (xcall * option Z) :=
     bind the remount that makes it so, keeping the restrictions the source file system has *)
 Definition bind_ro := 4097.   (* MS_BIND | MS_RDONLY *)
 Definition mount_calls (idx : Z) (nprefix : nat) (makenod : bool) (mflags statfs_flags : Z) : list (xcall * option (Z * Z)) :=
-  (map (fun _ => ((NR_mkdirat, [XInt (-100); XPtr "p"; XInt 493]), Some (LocMountMkdir, idx)))
+  (map (fun _ => ((NR_mkdirat, [XInt (-100); XPtr "m.Prefixes[]"; XInt 493]), Some (LocMountMkdir, idx)))
        (seq 0 (if makenod then Nat.pred nprefix else nprefix))) ++
-  when (makenod && negb (Nat.eqb nprefix 0)) [((NR_mknodat, [XInt (-100); XPtr "p"; XInt 493]), Some (LocMountMkdir, idx))] ++
+  when (makenod && negb (Nat.eqb nprefix 0)) [((NR_mknodat, [XInt (-100); XPtr "m.Prefixes[]"; XInt 493]), Some (LocMountMkdir, idx))] ++
   [((NR_mount, [XPtr "m.Source"; XPtr "m.Target"; XPtr "m.FsType"; XSel "m.Flags"; XPtr "m.Data"]), Some (LocMount, idx))] ++
   when (Z.eqb (Z.land mflags bind_ro) bind_ro)
     [((NR_statfs, [XPtr "m.Source"; XPtr "&s"]), Some (LocMount, idx));
